@@ -210,7 +210,8 @@ def s_store(cx):
     for k in range(cx.n(300, 3000)):
         sec, b, f = cx.seed()
         L += ["reset", "enable mask=7", load_op(sec, b, f), "store h=0", "birthday h=0",
-              "feature h=0 mask=7", "isenc h=0", "free h=0"]
+              "feature h=0 mask=7", "isenc h=0", "keygen h=0 coin=%d size=32" % r.randrange(2048),
+              "encode h=0 lang=0 coin=0", "free h=0"]
     return L
 
 
@@ -616,6 +617,25 @@ def shared_words(cx, a, b):
     return [j for j in range(2048) if A[j] in B]
 
 
+_acc_cache = {}
+
+
+def accepted_by_some(B, tok):
+    """does some word of language B accept the token?  (same rule as pyspec.accepts)"""
+    key = id(B)
+    if key not in _acc_cache:
+        sw = [P.strip_na(w) if B["has_accents"] else w for w in B["words"]]
+        pre = set()
+        if B["has_prefix"]:
+            for w in sw:
+                for k in range(4, len(w) + 1):
+                    pre.add(w[:k])
+        _acc_cache[key] = (set(sw), pre)
+    exact, pre = _acc_cache[key]
+    t = P.strip_na(tok) if B["has_accents"] else tok
+    return t in exact or (len(t) >= 4 and t in pre)
+
+
 def s_auto(cx):
     L = ["reset"]
     r = cx.rng
@@ -642,7 +662,7 @@ def s_auto(cx):
             if A["has_prefix"] and len(P.strip_na(w) if A["has_accents"] else w) >= 4:
                 cands.append(w[:4] if not A["has_accents"] else None)
             for c in cands:
-                if c and any(P.accepts(B, c, wb) for wb in B["words"]):
+                if c and accepted_by_some(B, c):
                     both.append((j, c))
                     break
         if len(both) < 2:
